@@ -11,7 +11,7 @@ one() {
   d=/verif/seeded/$id
   prop=$(python3 -c "import json;print(json.load(open('$d/meta.json'))['property'])")
   extra=""
-  case $id in C09-1|C09-3) extra="C15";; C09-5) extra="C16";; esac
+  case $id in C09-1|C09-3|C09-7) extra="C15";; C09-5) extra="C16";; esac
   wt=/tmp/seedwt-$id
   git -C /repo worktree remove --force $wt >/dev/null 2>&1; rm -rf $wt
   git -C /repo worktree add -q --detach $wt HEAD || { echo "$id WORKTREE-FAILED"; return; }
